@@ -75,6 +75,8 @@ def run(rep, tier):
     lineof(rep, c)
     colunit(rep, c)
     pairpos(rep, c)
+    linestop(rep, c)
+    gutter(rep, c)
 
 
 # ------------------------------------------------------------------ CHECKED
@@ -441,3 +443,120 @@ def pairpos(rep, c):
     if not okpos:
         r.violation("call:position", where(call), "the offset passed to the index is not the position of the token at "
                     "`self.start` (the pair's start): line_col no longer describes where the pair begins")
+
+
+# ------------------------------------------------------------------ LINESTOP
+
+def linestop(rep, c):
+    r = rep.rule("C10.LINESTOP", 1,
+                 "the line iterator of a span starts at span.start and stops only when its cursor is strictly past "
+                 "span.end: a stop test that is also true for cursor == end yields nothing for an empty span (cursor == "
+                 "start == end on the first call), although the line containing the offset overlaps it")
+    fns = [b for b in c.bodies if b["name"] == "next" and b.get("impl_self") == "pest::span::LinesSpan"
+           and b.get("impl_trait") and b.get("body") is not None]
+    if not fns:
+        r.lost("Iterator::next for pest::span::LinesSpan")
+        return
+    fn = fns[0]
+
+    def is_end(e):
+        e = peel(e)
+        return kind(e) == "Field" and e["name"] == "end" and "Span" in e.get("bty", "")
+
+    def is_cursor(e):
+        e = peel(e)
+        return kind(e) == "Field" and "LinesSpan" in e.get("bty", "") and e.get("ty") == "usize"
+    n = 0
+    for x in walk(fn["body"]):
+        if kind(x) != "If" or not hirq.diverges(x["then"]):
+            continue
+        cnd = peel(x["cond"])
+        if kind(cnd) != "Binary" or cnd["op"] not in ("<", "<=", ">", ">=", "=="):
+            continue
+        l, rr, op = cnd["l"], cnd["r"], cnd["op"]
+        if is_end(l) and is_cursor(rr):
+            l, rr = rr, l
+            op = {"<": ">", "<=": ">=", ">": "<", ">=": "<=", "==": "=="}[op]
+        if not (is_cursor(l) and is_end(rr)):
+            continue
+        n += 1
+        r.instance("stop:cursor%send" % op, where(cnd), hirq.expr_text(cnd)[:50])
+        if op in (">=", "=="):
+            r.violation("stop:cursor%send" % op, where(cnd),
+                        "LinesSpan::next stops when cursor %s span.end: for an empty span (start == end) the first call "
+                        "already stops, so lines()/lines_span() are empty and an error built from the span renders no "
+                        "line text, while line_of at the same offset returns the line" % op)
+    if n == 0:
+        r.note("no comparison of the cursor with span.end guards an early stop")
+        r.floor = 0
+
+
+# ------------------------------------------------------------------ GUTTER
+
+def gutter(rep, c):
+    r = rep.rule("C10.GUTTER", 1,
+                 "the width of the line-number gutter of a rendered error is computed from BOTH line numbers of a span "
+                 "location: the end line can have more digits than the start line (9 -> 10), and every row of the "
+                 "rendering, including the marker rows, is indented by that one width")
+    LCL = "pest::error::LineColLocation"
+    cands = []
+    for b in c.bodies:
+        if b.get("impl_self") != "pest::error::Error" or b.get("body") is None or b.get("exp") or b.get("impl_trait"):
+            continue
+        if "String" not in str(b.get("output", b.get("ret", ""))) and "String" not in str(b["body"].get("ty", "")):
+            continue
+        # the gutter function: formats a number, takes the length of the text, returns a string of that many blanks
+        has_len = any(kind(x) == "MethodCall" and x["m"] == "len" for x in walk(b["body"]))
+        fmt = any((kind(x) in ("Call", "MethodCall")) and ("fmt::format" in str(callee(x)) or x.get("m") == "to_string"
+                                                             or "format" in " ".join(x.get("exp") or []))
+                  for x in walk(b["body"]))
+        blanks = any(kind(x) == "Lit" and x.get("v") in (" ", "' '") for x in walk(b["body"])) or \
+            any(kind(x) == "MethodCall" and x["m"] in ("repeat", "push") for x in walk(b["body"]))
+        reads_other = any(kind(x) == "Field" and x["name"] in ("variant", "path", "line", "continued_line")
+                          for x in walk(b["body"]))
+        if has_len and fmt and blanks and not reads_other:
+            cands.append(b)
+    if not cands:
+        r.lost("the gutter-width function of pest::error::Error (formats a line number, returns that many blanks)")
+        return
+    for b in cands:
+        r.instance(b["name"], where(b["body"]))
+
+        def span_arm_uses(fn, depth=0):
+            """For matches on LineColLocation reachable from fn: does the Span arm use a binding from each of its
+            two tuple halves?  Returns list of (arm, ok)."""
+            out = []
+            for x in walk(fn["body"]):
+                if kind(x) == "Match":
+                    for arm in x["arms"]:
+                        if any(str(v).startswith(LCL + "::Span") for v in hirq.pat_variants(arm["pat"])):
+                            subs = [q for q in walk(arm["pat"]) if q.get("k") == "PTupleStruct" or q.get("k") == "PTS"]
+                            halves = None
+                            for q in walk(arm["pat"]):
+                                ps = q.get("pats") or q.get("subs")
+                                if isinstance(ps, list) and len(ps) == 2 and any(
+                                        str(v).startswith(LCL + "::Span") for v in hirq.pat_variants(q)) and halves is None:
+                                    halves = ps
+                            if halves is None:
+                                out.append((arm, False))
+                                continue
+                            used = []
+                            for h in halves:
+                                ids = set(bid for (bid, nm) in hirq.pat_bindings(h))
+                                used.append(any(hirq.local_id(y) in ids for y in walk(arm["body"])))
+                            out.append((arm, all(used)))
+                if kind(x) in ("Call", "MethodCall") and depth < 2:
+                    h = c.fn(callee(x)) if isinstance(callee(x), str) else None
+                    if h is not None and h.get("impl_self") == "pest::error::Error" and h is not fn and h.get("body") is not None:
+                        out += span_arm_uses(h, depth + 1)
+            return out
+        arms = span_arm_uses(b)
+        if not arms:
+            r.violation(b["name"] + ":no-span-arm", where(b["body"]),
+                        "%s does not look at the span form of the location at all" % b["name"])
+        for (arm, ok) in arms:
+            if not ok:
+                r.violation(b["name"] + ":one-line", where(arm["pat"]),
+                            "the gutter width is derived from one end of the span location only: when the other line "
+                            "number has more digits (a span from line 9 to line 10) the rows of the rendering are "
+                            "indented by different amounts and the marker is no longer under the reported column")
